@@ -14,6 +14,9 @@ import (
 //	edge  := (from to requirement (attrpair*))      attrpair as in attr.go buildDep
 //	perm  := (int*)   old index -> new index, applied before Canon (perm[0] must be 0)
 //
+// Nodes and edges are added through AddNode/AddEdge; errors through AddError for even
+// nodes and by appending to the exported Errors slice for odd nodes.
+//
 // The result of canon_graph is ("ok" nodes edges error) in exactly the input
 // syntax (so an output can be fed back), ("err") when Canon returns an error,
 // ("adderr") when AddEdge/AddError rejects an id, and ("panic") on a panic.
@@ -67,6 +70,12 @@ func buildGraph(arg sx.V) (g *resolve.Graph, ok bool) {
 		nd := nodes[inv[j]]
 		id := g.AddNode(vkOf(nd, 0))
 		for _, e := range nd.Nth(4).List() {
+			if j%2 == 1 {
+				// Nodes and Errors are exported: a graph may also be filled in directly.
+				// Odd nodes get their errors that way, even nodes through AddError.
+				g.Nodes[id].Errors = append(g.Nodes[id].Errors, resolve.NodeError{Req: vkOf(e, 0), Error: e.Nth(4).Str()})
+				continue
+			}
 			if err := g.AddError(id, vkOf(e, 0), e.Nth(4).Str()); err != nil {
 				return g, false
 			}
@@ -125,6 +134,10 @@ func sgn(c int) sx.V {
 
 func init() {
 	register("canon_graph", canonGraph)
+	// resolve_systems: the numbers of the three systems resolve knows (implementation only)
+	register("resolve_systems", func(sx.V) sx.V {
+		return sx.L(sx.Int(int(resolve.NPM)), sx.Int(int(resolve.Maven)), sx.Int(int(resolve.PyPI)))
+	})
 	// graph_build: the graph as built (after the optional renumbering), not canonicalised
 	register("graph_build", func(arg sx.V) sx.V {
 		g, ok := buildGraph(arg)
